@@ -28,7 +28,10 @@ class PrecipitateModel (PrecipitateBase):
         In addition to PrecipitateBase, the equilibrium aspect ratio area and population balance models are created here
         '''
         super()._resetArrays()
-        self.PBM = [PopulationBalanceModel() for p in self.phases]
+        #Only create the population balance models once so that reset() keeps the parameters set by setPBMParameters
+        #   (reset() clears the size distributions afterwards)
+        if not hasattr(self, 'PBM'):
+            self.PBM = [PopulationBalanceModel() for p in self.phases]
         self.eqAspectRatio = [None for p in range(len(self.phases))]
 
         self.RdrivingForceIndex = np.zeros(len(self.phases), dtype=np.int32)
